@@ -19,6 +19,7 @@ import (
 	"os/exec"
 	"path/filepath"
 	"runtime"
+	"runtime/pprof"
 	"sort"
 	"strconv"
 	"strings"
@@ -302,6 +303,19 @@ func newCtx(ck *Check, tier string, seed int64, i, n int, scratch string, dl tim
 func worker(ck *Check, tier string, seed int64, i, n int, out, scratch string, deadline int64) {
 	c := newCtx(ck, tier, seed, i, n, scratch, time.Unix(0, deadline))
 	ck.Run(c)
+	if hp := os.Getenv("VERIF_HEAPPROF"); hp != "" {
+		// diagnostics: what the worker still holds at the end of its run
+		runtime.GC()
+		if f, err := os.Create(hp); err == nil {
+			_ = pprof.WriteHeapProfile(f)
+			_ = f.Close()
+		}
+		fmt.Fprintf(os.Stderr, "goroutines at end of run: %d\n", runtime.NumGoroutine())
+		if f, err := os.Create(hp + ".goroutines"); err == nil {
+			_ = pprof.Lookup("goroutine").WriteTo(f, 1)
+			_ = f.Close()
+		}
+	}
 	// states -> binary file
 	sf := out + ".states"
 	buf := make([]byte, 0, 8*len(c.states))
@@ -384,7 +398,7 @@ func parent(ck *Check, tier string, seed int64) int {
 			}
 			cmd := exec.Command(bin, ck.ID, "--tier", tier, "--shard", fmt.Sprintf("%d/%d", i, n), "--out", out,
 				"--scratch", scr, "--deadline", strconv.FormatInt(deadline.UnixNano(), 10))
-			cmd.Env = append(os.Environ(), "GOMEMLIMIT=6GiB", "VERIF_SEED="+strconv.FormatInt(seed, 10),
+			cmd.Env = append(os.Environ(), "GOMEMLIMIT=3GiB", "VERIF_SEED="+strconv.FormatInt(seed, 10),
 				// race builds: reports go to a file the worker inspects after every execution (ignored by non-race builds)
 				"GORACE=log_path="+filepath.Join(scr, "race.log")+" halt_on_error=0 exitcode=0 history_size=2")
 			var stderr bytes.Buffer
